@@ -135,6 +135,19 @@ theorem answerTo_single {x : Nat} (r : Reply) (h1 : r.xid? = some x) (h2 : r.isA
 theorem multipart_answer {x t : Nat} {g : List Reply} {bs : List StatsBody} (h : Multipart x t g bs) : AnswerTo x g :=
   ⟨h.all.1, h.all.2, multipart_complete h⟩
 
+/-- **multipart_split**: the splitting rule of `_split_stats_body` (greedy: an entry opens a new part when it does not fit
+the current one — and is then counted in the new one), for any entry type and size function: the parts, concatenated, are
+exactly the list; there is at least one part; no part of a non-empty list is empty; and when every single entry fits a
+message, EVERY part — the first and all later ones — fits (body at most 65523 bytes, message at most 65535). -/
+theorem multipart_split {α} (size : α → Nat) (l : List α) :
+    (splitParts size l).flatten = l ∧ splitParts size l ≠ [] ∧ (l ≠ [] → ∀ p ∈ splitParts size l, p ≠ []) ∧
+    ((∀ e ∈ l, size e ≤ 65523) → ∀ p ∈ splitParts size l, (p.map size).sum + 12 ≤ 65535) := by
+  refine ⟨splitParts_flatten size l, splitParts_ne size l, splitParts_nonempty size l, ?_⟩
+  intro h p hp
+  have := splitParts_fit size l h p hp
+  have e : partLimit = 65523 := rfl
+  omega
+
 open Generated.SwitchDispatch in
 theorem stats_spec (s : SwitchState) (x : Nat) (req : StatsReq) (hwf : ∀ t, req = .other t → 6 ≤ t)
     (hfit : (∃ mk tid op, req = .flow mk tid op) → FlowsFit s) :
